@@ -25,7 +25,7 @@ use uom::si::time::second;
 pub fn def() -> PropDef {
     PropDef {
         id: "C10",
-        rule: "inputs: events of 0-40 wire banks over all (board, channel) pairs and 0-8 PWB messages over all (board, chip) with any subset of the 79 readout channels (pads, FPN, reset), arbitrary sample contents incl. ADC extremes, wire waveforms of 64..2000 samples (incl. <= delay), pad waveforms of 0..511 samples, chunk sizes 40..60000, run numbers of every calibration era and both sides of every dispatch boundary, any bank order, plus ignorable banks (BV banks, TRBA, MCVX, 16-byte suppressed packets); single injected inconsistencies: renamed wire bank, swapped payloads, duplicated wire bank (either order, one copy possibly shorter than the delay), duplicated/missing TRG, BV channel in a C bank, unknown bank name, PWB chunk under another board's name, dropped chunk, duplicated PWB message, corrupted wire/chunk/TRG payload, an extra wire bank whose payload the reference validator of C02 rejects (a 16-byte suppressed packet with one byte changed, 0-40 arbitrary bytes, a data packet cut short), board not installed for the run; oracle: slot-by-slot model of both signal arrays (slot from the public map API, value (raw - baseline) * gain after the delay with the harness's own reading of the calibration files and run dispatch, every other slot empty), timestamp, exact f64 equality through the read-only hook; faults must give Err, fault-free events Ok exactly when every needed map/calibration exists; hook-free variant: a single wire pulse + pad cluster must come back from avalanches() on that wire, time bin and pad row; non-trivial = accepted events with >= 2 occupied slots, or a fault case; distinct by (run era, slots, fault) hash",
+        rule: "inputs: events of 0-40 wire banks over all (board, channel) pairs and 0-8 PWB messages over all (board, chip) with any subset of the 79 readout channels (pads, FPN, reset), arbitrary sample contents incl. ADC extremes, wire waveforms of 64..2000 samples (incl. <= delay), pad waveforms of 0..511 samples, chunk sizes 40..60000, run numbers of every calibration era and both sides of every dispatch boundary, any bank order, plus ignorable banks (BV banks, TRBA, MCVX, 16-byte suppressed packets); single injected inconsistencies: renamed wire bank, swapped payloads, duplicated wire bank (either order, one copy possibly shorter than the delay), duplicated/missing TRG, BV channel in a C bank, unknown bank name, PWB chunk under another board's name, dropped chunk, duplicated PWB message, corrupted wire/chunk/TRG payload, an extra wire bank whose payload the reference validator of C02 rejects (a 16-byte suppressed packet with one byte changed, 0-40 arbitrary bytes, a data packet cut short), a PWB message whose chunks are intact but whose payload breaks one rule of the PWB layout, a TRG bank that breaks one rule of the TRG layout (both kept only if the reference validators of C05 / C06 reject them), board not installed for the run; oracle: slot-by-slot model of both signal arrays (slot from the public map API, value (raw - baseline) * gain after the delay with the harness's own reading of the calibration files and run dispatch, every other slot empty), timestamp, exact f64 equality through the read-only hook; faults must give Err, fault-free events Ok exactly when every needed map/calibration exists; hook-free variant: a single wire pulse + pad cluster must come back from avalanches() on that wire, time bin and pad row; non-trivial = accepted events with >= 2 occupied slots, or a fault case; distinct by (run era, slots, fault) hash",
         assumptions: &[
             "the signal arrays are read through alpha_g_physics::verif_hooks (feature verif-hooks); the hook-free single-pulse variant cross-checks slot, delay and baseline sign without it",
             "two header-only (16-byte) packets under one name are outside the duplicate rule (they carry no data); the check asserts nothing about that corner",
@@ -76,6 +76,11 @@ pub enum Fault {
     /// one byte set to `val`, 1 = `bytes` as they are, 2 = a valid data packet
     /// cut to `pos` bytes
     MalformedWire { board: u8, channel: u8, kind: u8, pos: u8, val: u8, bytes: Vec<u8> },
+    /// message `msg` re-encoded with one rule of the PWB layout broken (valid
+    /// chunks and CRCs around a payload the reference validator of C05 rejects)
+    MalformedPwb { msg: u16, mutation: crate::gen::PwbMut },
+    /// the TRG bank with one rule of the TRG layout broken (reference validator of C06 rejects it)
+    MalformedTrg { mutation: crate::gen::TrgMut },
 }
 #[derive(Clone, Debug, Serialize, Deserialize)]
 pub enum Ignored {
@@ -273,6 +278,34 @@ fn build_case(c: &C10Case) -> Built {
                     false
                 } else {
                     extra.push((wire_bank_name(b, ch), payload));
+                    true
+                }
+            }
+            Fault::MalformedPwb { msg, mutation } if nm > 0 => {
+                let m = pick(*msg, nm);
+                let (b, chip, ch) = &msgs[m];
+                let pid = packet_ids[m];
+                let mut model = oracles::pwb::PwbModel::valid(pid.1, PADWING_BOARDS[pid.0].1, ch.clone(), c.pad_samples);
+                crate::gen::apply_pwb_mut(&mut model, mutation);
+                let payload = model.encode();
+                if payload.is_empty() || payload.len() > 60_000 || oracles::pwb::ref_pwb(&payload).is_ok() {
+                    false
+                } else {
+                    msg_banks[m] = oracles::chunk::cut_into_chunks(&payload, c.chunk_size.max(1) as usize, PADWING_BOARDS[*b].2, *chip, 0, 0)
+                        .into_iter()
+                        .map(|k| (format!("PC{}", PADWING_BOARDS[*b].0), k.encode()))
+                        .collect();
+                    true
+                }
+            }
+            Fault::MalformedTrg { mutation } => {
+                let mut model = oracles::trg::TrgModel::valid(5, 5, 6, 7, c.timestamp);
+                crate::gen::apply_trg_mut(&mut model, mutation);
+                let bytes = model.encode();
+                if oracles::trg::ref_trg(&bytes).is_ok() {
+                    false
+                } else {
+                    trg[0].1 = bytes;
                     true
                 }
             }
@@ -490,6 +523,8 @@ fn fault() -> impl Strategy<Value = Fault> {
         (any::<u16>(), any::<u16>()).prop_map(|(msg, chunk)| Fault::CorruptChunk { msg, chunk }),
         Just(Fault::CorruptTrg),
         (any::<u16>(), any::<u16>()).prop_map(|(msg, sel)| Fault::NotInstalled { msg, sel }),
+        (any::<u16>(), crate::gen::pwb_mut()).prop_map(|(msg, mutation)| Fault::MalformedPwb { msg, mutation }),
+        crate::gen::trg_mut().prop_map(|mutation| Fault::MalformedTrg { mutation }),
         ((0u8..8, 0u8..32), 0u8..3, any::<u8>(), prop_oneof![any::<u8>(), Just(0u8), Just(0xFFu8)], vec(any::<u8>(), 0..=40)).prop_map(|((board, channel), kind, pos, val, bytes)| Fault::MalformedWire { board, channel, kind, pos, val, bytes }),
     ]
 }
